@@ -78,7 +78,7 @@ class C02(Check):
     def strategy(self, tier: str):
         def for_kind(kind: str, plain: bool = False):
             reg = stdreg.std_registry('sync' if plain else kind)
-            gen = docs.document(reg, kinds=['single'] * 2 + ['batch'] * 8,
+            gen = docs.document(reg, kinds=['single'] * 2 + ['batch'] * 8 + ['long'],
                                 flavours=['valid'] * 12 + ['unknown-method'] * 2 + ['deviant', 'non-object'])
             return st.builds(
                 lambda text, beh, mbs, codec: {'dispatcher': kind, 'plain': plain, 'sequential': kind == 'async' and (len(beh) + len(codec)) % 3 == 0, 'max_batch_size': batch_limit(text, mbs), 'behaviours': beh, 'text': text, 'codec': codec},
